@@ -68,8 +68,14 @@ func (r *Run) threadClasses() []threadClass {
 								if !ok || calleeObj(c.Info(), call) != holder.Obj || pidx >= len(call.Args) {
 									return true
 								}
+								var tf *Func
 								if tgt := funcValueTarget(c.Info(), ast.Unparen(call.Args[pidx])); tgt != nil {
-									if tf := r.P.Funcs[tgt]; tf != nil && !seen[tf] {
+									tf = r.P.Funcs[tgt]
+								} else if al, isLit := ast.Unparen(call.Args[pidx]).(*ast.FuncLit); isLit {
+									tf = r.P.Lits[al] // spawn(&wg, func(){ h.startSending(ctx) })
+								}
+								{
+									if tf != nil && !seen[tf] {
 										seen[tf] = true
 										reach := r.reachableFrom(tf)
 										for f := range r.reachableFromSkipping(lf, holder, pidx) {
@@ -409,6 +415,10 @@ func (r *Run) goTargets(ev Event) []*Func {
 			if pidx := r.spawnedParam(holder, ev.Lit); pidx >= 0 && inst.bind != nil && inst.bind.call != nil && pidx < len(inst.bind.argv()) {
 				if tgt := funcValueTarget(inst.bind.caller.Info(), ast.Unparen(inst.bind.argv()[pidx])); tgt != nil {
 					if tf := r.P.Funcs[tgt]; tf != nil {
+						targets = append(targets, tf)
+					}
+				} else if al, isLit := ast.Unparen(inst.bind.argv()[pidx]).(*ast.FuncLit); isLit {
+					if tf := r.P.Lits[al]; tf != nil {
 						targets = append(targets, tf)
 					}
 				}
